@@ -32,6 +32,7 @@ def corruptions(ex, op, payload):
     expectation: 'reject' | ('unknown_typename',) | ('swapped_typename', new name)."""
     schema = ex.schema
     out = []
+    env0 = {v: False for v in gql.directive_variables(ex.doc)}
 
     def edit(path_keys, fn):
         p = copy.deepcopy(payload)
@@ -44,7 +45,8 @@ def corruptions(ex, op, payload):
     def walk_obj(val, static_type, sel, keys, rpath):
         rt = static_type if schema.kind(static_type) == "OBJECT" else val.get("__typename")
         parents = {}
-        fields = gql.collect_fields(schema, ex.frags, rt, sel, parents=parents, static_type=static_type)
+        # (the payload that is corrupted is the default vector: every directive variable false)
+        fields = gql.collect_fields(schema, ex.frags, rt, sel, parents=parents, static_type=static_type, env=env0)
         abstract = schema.kind(static_type) != "OBJECT"
         if abstract and "__typename" in val:
             out.append(("typename_unknown", rpath, edit(keys + ["__typename"], lambda c, k: c.__setitem__(k, "NoSuchType")), ("unknown_typename",)))
